@@ -1,8 +1,9 @@
 # C11 - grammar analysis never certifies a grammar that can loop without progress.
 #
 #   proofs          coq/Properties_C11.v  (model Analyze.v = analyze_traits.hpp + analyze.hpp; AnalyzeFacts.v stage A:
-#                   a problem-free work() yields the inductive judgement okw; AnalyzeSound.v stage B: okw for every
-#                   entry implies that every run of Engine.eval terminates)
+#                   a problem-free work() yields the inductive judgement okw; stage B: AnalyzeSound.v / AnalyzeCons.v
+#                   (the "consumes" answer is sound) and AnalyzeTerm.v (okw for every entry implies that every run of
+#                   Engine.eval terminates: C11_sound, all heads))
 #   correspondence  per generated grammar: the compiler dumps the grammar table (harness/vharness.hpp) and the REAL
 #                   analysis entry by entry (harness/c11_harness.hpp: a class derived from internal::analyze_cycles<G>
 #                   prints m_entries, and for every entry the number of problems work() finds from it and its
@@ -463,12 +464,14 @@ def gather(ctx):
     if tier == "thorough":
         loopy = [g for g in sysg if "maybe_loop" in g.tags]
         rest = [g for g in sysg if "maybe_loop" not in g.tags]
-        sysg = rnd.sample(loopy, min(len(loopy), 900)) + rnd.sample(rest, min(len(rest), 1100))
+        sysg = rnd.sample(loopy, min(len(loopy), 600)) + rnd.sample(rest, min(len(rest), 700))
     grams = list(sysg)
-    nr = 40 if tier == "quick" else 300
+    nr = 40 if tier == "quick" else 200
     grams += corpus.random_grammars(seed, nr, start_gid=200000)
     grams += corpus.random_grammars(seed + 7919, nr // 2, start_gid=300000, classical_only=True)
     grams += illformed(tier, seed, 400000)
+    # every atom / decoder class once (their traits: any vs opt), with their own byte alphabets
+    grams += corpus.atom_grammars(tier, start_gid=500000)
     # gids must be unique (namespace names)
     seen = set()
     out = []
